@@ -2,6 +2,7 @@ package rules
 
 import (
 	"golang.org/x/tools/go/ssa"
+	"reflect"
 
 	"verifchk/core"
 )
@@ -139,5 +140,36 @@ func init() {
 		Explanation: "INPUT-RO: whole-package taint propagation on SSA. Sources are the schema / data / parameter / header / document parameters of the exported entry points and (*loads.Document).Spec(); a value is T1 when it points into caller-owned memory and T2 when it is the address of a local shallow copy (pointers, maps and slices loaded out of a T2 copy are T1 again). Every store through a pointer, map update, delete, append, copy and external mutator call (ExpandSchema, ExpandParameter*, ExpandResponse*, sort.*, json.Unmarshal, gob Decode) on spec.* / dynamic-JSON typed memory in package validate must have a target that is not T1. Two reviewed exceptions are checked structurally: the lazy ExpandSchema of a caller's schema under the test of its ID/$ref, and the parameter list rewritten on the operation returned by expandedAnalyzer(), which must still prefer the private expanded copy.",
 		NotDecided:  "Mutation performed inside dependencies on objects handed to them and not listed in the mutator table; package post (mutates the data by contract).",
 		Assumptions: []string{"(*loads.Document).Expanded and swag.ToDynamicJSON return memory not shared with their argument", trustDeps},
+	}
+}
+
+func init() {
+	helperEntries := []DynEntry{}
+	for _, h := range []struct {
+		fn  string
+		arg int
+	}{{"UniqueItems", 2}, {"Enum", 2}, {"EnumCase", 2}, {"Required", 2}, {"ReadOnly", 3}} {
+		helperEntries = append(helperEntries, DynEntry{Func: h.fn, DataArg: h.arg})
+	}
+	anyDomain := append(append([]atom{}, goTypedDomain...), aSliceIface, aMapIface, other(reflect.Struct), other(reflect.Ptr), other(reflect.Map), other(reflect.Bool), other(reflect.Func), other(reflect.Interface))
+	Properties["C14"] = PropSpec{
+		Rules: []Rule{Pure, Cow,
+			PanicInventory(valueHelpers, helperEntries, anyDomain, "any Go value: nil, every basic kind, named strings, slices, maps, structs, pointers", "no-applies", "helpers"),
+			NilRule(func(p *core.Prog) []*ssa.Parameter {
+				var out []*ssa.Parameter
+				for _, h := range valueHelpers {
+					if f := p.Func(h); f != nil {
+						for _, prm := range f.Params {
+							if isNillable(prm.Type()) && prm.Name() != "ctx" {
+								out = append(out, prm)
+							}
+						}
+					}
+				}
+				return out
+			})},
+		Explanation: "PURE: (purity) no function reachable from the 13 exported helpers stores outside locals or updates a foreign map, and none reads package state other than the regexp cache; (provenance clauses, each a dependence identity on SSA) Min/MaxLength compare utf8.RuneCountInString(data) with the limit in the right direction; Min/MaxItems compare the two parameters; RequiredString/Number test data against the zero constant; Pattern reports the compile error and otherwise decides by MatchString(data) of the expression compiled from pattern; FormatOf rejects unknown names then follows Validates(format, data), nil registry → strfmt.Default; Enum = EnumCase(...,true); EnumCase compares data with each member by DeepEqual and converts data to the type of the very member compared; UniqueItems uses DeepEqual between elements; Required/ReadOnly decide by DeepEqual(Zero(TypeOf(data)), data); ReadOnly only reports in a request context; withOperation always returns WithValue(ctx,key,operation). Plus panic-freedom of the helpers for any Go value (D-DYN over all kinds incl. typed and untyped nil) and the COW rules for Pattern.",
+		NotDecided:  "reflect.DeepEqual / numeric-equality semantics themselves, the exact set of types for which conversion succeeds, invalid UTF-8 handling inside package unicode/utf8.",
+		Assumptions: []string{trustDeps},
 	}
 }
